@@ -75,6 +75,20 @@ theorem WInv.adv_write {R0 W0 : List Addr} {w w' : World} {b b' : IoBufs}
   · intro a ha; rw [h7] at ha; exact hb.1 a (List.mem_of_mem_drop ha)
   · simp only [IoBufs.size, available_eq_total]; omega
 
+/-- what a successful `split_at` returns, on the flat list -/
+theorem splitAt_ok {b a o : IoBufs} {k : Nat} (h : b.splitAt k = .ok (a, o)) :
+    k ≤ total b.segs ∧ addrs a.segs = (addrs b.segs).take k ∧ addrs o.segs = (addrs b.segs).drop k
+      ∧ a.consumed = b.consumed ∧ o.consumed = 0 := by
+  unfold IoBufs.splitAt at h
+  by_cases hk : k ≤ total b.segs
+  · obtain ⟨a', o', e, ha, ho⟩ := (splitSegs_spec b.segs k).1 hk
+    rw [e] at h
+    simp only [Except.ok.injEq, Prod.mk.injEq] at h
+    obtain ⟨rfl, rfl⟩ := h
+    exact ⟨hk, ha, ho, rfl, rfl⟩
+  · rw [(splitSegs_spec b.segs k).2 (by omega)] at h
+    cases h
+
 /-- `split_at` partitions a handle: both halves stay inside, sizes add up -/
 theorem splitAt_spec {A0 : List Addr} {b a o : IoBufs} {k : Nat} (hb : HIn A0 b)
     (h : b.splitAt k = .ok (a, o)) :
